@@ -171,6 +171,27 @@ def file_traces(tid0, res, encoding, meta, desc, max_records=None):
         views.append(('OG', 'Omen/' + fn, ok_og, want, got))
         got = [(k, float(v)) for k, v in (getattr(osc, key).items() if ok_os else [])]
         views.append(('OS', 'Omen/' + fn, ok_os, want, got))
+    # LN.level: line L holds the level of total length L.  The guesser keeps the lengths that can be generated (L >= n-gram
+    # size) as numbers of transitions L - (n - 1); the scorer keeps every line (index = length)
+    ln_lines = rulesets.neutral_read(os.path.join(od, 'LN.level'), 'utf-8')
+    n_ = None
+    try:
+        import configparser as _cp
+        c_ = _cp.ConfigParser()
+        c_.read(os.path.join(od, 'config.txt'))
+        n_ = c_.getint('training_settings', 'ngram')
+    except Exception:
+        n_ = None
+    if n_:
+        want = [(str(L), sfloat(lv)) for L, lv in enumerate(ln_lines, 1) if L >= n_]
+        got = []
+        if ok_og:
+            for lvl, lens in g['ln'].items():
+                got += [(str(k + n_ - 1), float(lvl)) for k in lens]
+        views.append(('OG', 'Omen/LN.level', ok_og, want, got))
+        want_s = [(str(L), sfloat(lv)) for L, lv in enumerate(ln_lines, 1)]
+        got_s = [(str(L), sfloat(lv)) for L, lv in enumerate(osc.ln[1:], 1)] if ok_os else []
+        views.append(('OS', 'Omen/LN.level', ok_os, want_s, got_s))
     want = [(a, 0.0) for a in rulesets.neutral_read(os.path.join(od, 'alphabet.txt'), encoding)]
     views.append(('OG', 'Omen/alphabet.txt', ok_og, want, [(a, 0.0) for a in (g['alphabet'] if ok_og else [])]))
     for _, _, _, want, got in views:
